@@ -81,16 +81,19 @@ def resolve(ns, r):
     return hits[0] + r[2] if hits else None
 
 
-def nt_term(x):
+def nt_term(x, explicit_string=False):
     if x[0] == "I":
         return "<%s>" % x[1]
     if x[0] == "B":
         return x[1]
-    return '"%s"' % x[1] if x[2] == XSD + "string" else '"%s"^^<%s>' % (x[1], x[2])
+    if x[2] == XSD + "string" and not (explicit_string and x[1].startswith("http://")):
+        return '"%s"' % x[1]
+    return '"%s"^^<%s>' % (x[1], x[2])
 
 
-def nt_doc(G):
-    return "".join("%s <%s> %s .\n" % (nt_term(s), p, nt_term(o)) for (s, p, o) in G)
+def nt_doc(G, explicit_string=False):
+    """explicit_string: literals that look like IRIs are written "..."^^xsd:string (the same abstract triple)"""
+    return "".join("%s <%s> %s .\n" % (nt_term(s), p, nt_term(o, explicit_string)) for (s, p, o) in G)
 
 
 def tup(x):
@@ -232,8 +235,9 @@ def gen_graph(r):
     if r.random() < 0.04:
         nodes.append(["I", "http://e/u@h"])     # an IRI with '@'
     if r.random() < 0.3:                        # punctuation in local names; tax / tax:9606 differ only after the ':'
+        # a-ex:b repeats its own prefix when written ex:a-ex:b; every ':' does when the user takes the empty prefix
         nodes += r.sample([["I", "http://e/tax:9606"], ["I", "http://e/tax"], ["I", "http://e/a.b-c"],
-                           ["I", "http://e/x%20y"], ["I", "http://e/n0:n1:n2"]], r.randint(1, 3))
+                           ["I", "http://e/x%20y"], ["I", "http://e/n0:n1:n2"], ["I", "http://e/a-ex:b"]], r.randint(1, 3))
     nodes += [["B", "_:b%d" % i] for i in range(r.choice([0, 0, 1, 1, 2]))]
     props = ["http://e/p%d" % i for i in range(r.randint(1, 3))]
     if r.random() < 0.25:
@@ -313,7 +317,7 @@ def gen_selector(r, ns, G, typing, classes, nodes, props):
 
 def gen_target(r, G, typing, classes, nodes, props):
     ns = [list(x) for x in NSPOOL if x[0] == "http://e/" or r.random() < 0.7]
-    if r.random() < 0.05:
+    if r.random() < 0.1:
         ns[0] = ["http://e/", ""]       # the user takes the empty prefix; the shapes namespace gets weso-s
     r.shuffle(ns)
     tau_iri = r.choice(typing) if r.random() < 0.85 else r.choice([RT, KIND, P31])
@@ -343,6 +347,35 @@ def gen_target(r, G, typing, classes, nodes, props):
         tg["fmt"] = r.choice(["fsm", "fsm", "json"])
         tg["sm_src"] = r.choice(["raw", "raw", "file"])
     return tg
+
+
+def add_class_named_literals(r, G, tg, classes, typing):
+    """A literal is never a class: statements `<n> tau "http://e/C0"` whose object is a LITERAL spelled like a
+    class IRI (plain / typed xsd:string, or xsd:anyURI) -- a requested class, a class that is not requested, and
+    the same under a typing property that is not the instantiation property -- denote nothing.  Mostly added to
+    documents read in target-classes mode (in all_classes_mode a literal object of tau is finding C10-F6).
+    Returns the number of statements added."""
+    share = 0.3 if tg["classes"] is not None else 0.03
+    if r.random() >= share:
+        return 0
+    tau = resolve(tg["ns"], tg["tau"])
+    requested = [c for c in (resolve(tg["ns"], x) for x in tg["classes"] or []) if c is not None]
+    subjects = dedup([s for (s, _, _) in G]) or [["I", "http://e/n0"]]
+    added = 0
+    for _ in range(r.choice([1, 1, 2, 3])):
+        k = r.random()
+        if requested and k < 0.6:
+            lex = r.choice(requested)
+        elif k < 0.9:
+            lex = r.choice([c for c in classes if c not in requested] or classes)
+        else:
+            lex = "http://e/Nothing"
+        p = tau if r.random() < 0.8 else r.choice(typing)
+        t = [r.choice(subjects), p, ["L", lex, XSD + r.choice(["string", "string", "anyURI"])]]
+        if tup(t) not in {tup(x) for x in G}:
+            G.insert(r.randint(0, len(G)), t)
+            added += 1
+    return added
 
 
 def gen_layout(r, tg):
@@ -554,7 +587,7 @@ def impl_case(case):
     os.makedirs(D, exist_ok=True)
     c = concrete(case)
     G = case["graph"]
-    nt = nt_doc(G)
+    nt = nt_doc(G, bool(case.get("nt_explicit_string")))
     obs = {"dis0": ait._TRACKERS_DISAM_COUNT, "bn": {}, "wf": {}, "ans": {}, "monitor": []}
     tmp = []
     kw = {"raw_graph": nt, "namespaces_dict": {n: p for n, p in c["ns"]}, "instantiation_property": c["tau"],
@@ -927,6 +960,44 @@ def same_shape_name(den):
 
 
 # ---------------------------------------------------------------------------------------------
+# C10-F9: which text of the prefix expansion is in the tree under test
+# ---------------------------------------------------------------------------------------------
+
+def unprefix_flags():
+    """{site: bool} read from the Gen/Consts.v that core.build has just regenerated from the code under test:
+    does NodeSelectorParser._unprefix_uri ('sel') / utils.uri.unprefixize_uri_if_possible ('ifp') call
+    str.replace with the count 1.  None for a site whose flag is missing (gen_consts failed closed)."""
+    out = {"sel": None, "ifp": None}
+    try:
+        with open(os.path.join(core.ROCQ, "theories", "Gen", "Consts.v")) as f:
+            text = f.read()
+    except OSError:
+        return out
+    for k in out:
+        m = re.search(r"^Definition c_unprefix_%s_once : bool := (true|false)\.$" % k, text, re.M)
+        if m:
+            out[k] = m.group(1) == "true"
+    return out
+
+
+def ref_repeats_prefix(r):
+    return r[0] == "P" and (r[1] + ":") in r[2]
+
+
+def names_repeating_prefix(tg):
+    """(through utils.uri, through the selector parser): prefixed names, outside labels, whose local part holds
+    their own 'prefix:' again (Model.SelectorsDom.ref_repeats_prefix)"""
+    ifp = [tg["tau"]] + list(tg["classes"] or [])
+    sel = []
+    for s, _ in tg["items"] or []:
+        if s[0] == "node":
+            sel.append(s[1])
+        elif s[0] in ("fs", "fo"):
+            sel += [f for f in (s[1], s[2]) if f[0] not in ("W", "a")]
+    return any(ref_repeats_prefix(r) for r in ifp), any(ref_repeats_prefix(r) for r in sel)
+
+
+# ---------------------------------------------------------------------------------------------
 # run
 # ---------------------------------------------------------------------------------------------
 
@@ -939,7 +1010,11 @@ def gen_cases(tier, rnd, n):
             case = {"kind": "raw", "raw": gen_raw(r, G, typing, classes, nodes, props), "graph": G, "idx": idx}
         else:
             tg = gen_target(r, G, typing, classes, nodes, props)
+            n_lit = add_class_named_literals(r, G, tg, classes, typing)
             case = {"kind": "ast", "tg": tg, "graph": G, "idx": idx, "layout": gen_layout(r, tg)}
+            if n_lit:
+                case["class_named_literals"] = n_lit
+                case["nt_explicit_string"] = r.random() < 0.4
         cases.append(case)
     return cases
 
@@ -949,7 +1024,8 @@ def evaluate(cases, bs, run, findings, rnd, do_vm=True):
     res = {"spec_fail": [], "corr_fail": [], "known_hits": collections.Counter(), "raised": collections.Counter(),
            "dom": 0, "domc": 0, "variant": 0, "nontrivial_keys": set(), "monitor": [], "modes": collections.Counter(),
            "selectors": collections.Counter(), "render_mismatch": [], "den_mismatch": [], "outcomes": collections.Counter(),
-           "vm_cases": [], "order_same": 0, "order_diff": 0}
+           "vm_cases": [], "order_same": 0, "order_diff": 0,
+           "repeat_names": collections.Counter(), "class_literals": collections.Counter()}
     mb = core.ModelBin() if bs.model_ok else None
     for case, obs in zip(cases, impl):
         res["monitor"] += obs["monitor"]
@@ -1029,6 +1105,27 @@ def evaluate(cases, bs, run, findings, rnd, do_vm=True):
             res["dom"] += 1
         if domc:
             res["domc"] += 1
+        # the instances dictionary itself is the denoted one (whatever the text level says)
+        dict_right = verdict is None or (isinstance(verdict, list) and {f[0] for f in verdict} <= {"text", "text-raised"})
+        if case.get("class_named_literals"):
+            kind = "all_classes_mode" if tg["all"] else "target_classes" if tg["classes"] is not None else "shape_map_only"
+            res["class_literals"][kind] += 1
+            if dom:
+                res["class_literals"][kind + "_in_C10_dom"] += 1
+            if dom and dict_right:
+                res["class_literals"][kind + "_in_C10_dom_dictionary_right"] += 1
+            if dom and verdict is None:
+                res["class_literals"][kind + "_in_C10_dom_text_right_too"] += 1
+        rep_ifp, rep_sel = names_repeating_prefix(tg)
+        if rep_ifp or rep_sel:
+            res["repeat_names"]["cases"] += 1
+            res["repeat_names"]["in_C10_dom" if dom else "outside_C10_dom"] += 1
+            if dom and dict_right:
+                res["repeat_names"]["in_C10_dom_dictionary_right"] += 1
+            if dom and verdict is None:
+                res["repeat_names"]["in_C10_dom_text_right_too"] += 1
+            if "prefix_in_local" in rcs:
+                res["repeat_names"]["root_cause_C10-F9"] += 1
         if den and any(len(v) > 0 for v in den.values()):
             res["nontrivial_keys"].add(json.dumps([concrete(case), case["graph"]], sort_keys=True))
         if verdict is None:
@@ -1110,12 +1207,24 @@ def run(tier, seed, replay=None):
     res = evaluate(cases, bs, run, findings, rnd)
 
     # pinned reproducers of the known findings
+    flags = unprefix_flags()
+    f9_repaired = flags["sel"] is True and flags["ifp"] is True
     for fid, f in findings.items():
         if f.get("status") != "known":
             continue
         case = reproducer_case(f)
         obs = impl_case(case)
         verdict, den, _ = oracle_verdict(case, obs)
+        if fid == "C10-F9" and f9_repaired:
+            # both copies of the line carry the count 1 in the tree under test: the root cause is gone, the
+            # reproducer is a regression case (so are corpus/C10/F9-*.json, replayed with the generated cases)
+            if verdict is not None:
+                res["spec_fail"].insert(0, {"case": case, "verdict": verdict, "impl": obs["dict"], "dom": True,
+                                            "root_causes": [], "text": obs.get("text")})
+            else:
+                run.notes.append("C10-F9: str.replace(prefix + ':', namespace, 1) in both places of the tree under test; "
+                                 "the pinned reproducer now yields the denoted instances (delete the 'known' entry)")
+            continue
         if verdict is not None:
             run.known_finding(fid, "%s -> %s" % (f["what"], json.dumps(verdict, default=str)[:140]))
         else:
@@ -1173,6 +1282,9 @@ def run(tier, seed, replay=None):
         "target_modes": dict(res["modes"]), "selector_kinds": dict(res["selectors"]),
         "impl_outcomes": dict(res["outcomes"]), "raised_outside_dom": dict(res["raised"]),
         "known_finding_hits": dict(res["known_hits"]),
+        "unprefix_replace_once": flags,
+        "names_repeating_their_prefix": dict(res["repeat_names"]),
+        "documents_with_literals_spelled_like_a_class_iri": dict(res["class_literals"]),
         "disagreements_model_vs_impl": len(res["corr_fail"]),
         "dict_key_order_equal": res["order_same"], "dict_key_order_differs": res["order_diff"],
         "vm_compute_crosschecked": vm_n,
